@@ -113,6 +113,31 @@ def random_op(rng, sc, uniq):
     return (coq, lambda: sc.rotate_transition(t, new_source=ns, new_target=nt), 'rotate_transition')
 
 
+class Timeout(BaseException):
+    pass
+
+
+class time_limit:
+    """SIGALRM guard: an edit that leaves the statechart cyclic makes the traversals loop forever"""
+
+    def __init__(self, seconds):
+        self.seconds = seconds
+
+    def __enter__(self):
+        import signal
+
+        def handler(signum, frame):
+            raise Timeout()
+        self.old = signal.signal(signal.SIGALRM, handler)
+        signal.alarm(self.seconds)
+
+    def __exit__(self, *a):
+        import signal
+        signal.alarm(0)
+        signal.signal(signal.SIGALRM, self.old)
+        return False
+
+
 def queries(sc):
     """depth_for / ancestors_for / descendants_for of every state (... and after it)"""
     out = []
@@ -165,13 +190,19 @@ def main(tier, seed):
             queries(sc)       # (as a client would: traversal queries before the edit ...)
             coq, thunk, kind = random_op(rng, sc, uniq)
             try:
-                thunk()
+                with time_limit(10):
+                    thunk()
                 res = 'EOk'
             except Exception as e:  # noqa
                 res = classify(e)
             post = sx.chart_value(sc)
-            cases.append(dict(pre=pre, op=coq, res=res, post=post, kind=kind,
-                              queries=queries(sc) if res in ('EOk', 'EStatechartError', 'EValueError') else []))
+            try:
+                with time_limit(10):
+                    qs = queries(sc) if res in ('EOk', 'EStatechartError', 'EValueError') else []
+            except Timeout:
+                qs = []
+                res = 'EOther:traversal of the resulting statechart does not terminate (after %s)' % res
+            cases.append(dict(pre=pre, op=coq, res=res, post=post, kind=kind, queries=qs))
             opmix[kind] = opmix.get(kind, 0) + 1
             resmix[res.split(':')[0]] = resmix.get(res.split(':')[0], 0) + 1
             if res.startswith('EKey') or res.startswith('EOther'):
